@@ -102,6 +102,17 @@ func getBlk(name string) *blk {
 	return b
 }
 
+// universeIntact recomputes the hash of every reference block (they are shared, shallowly, with the copies served).
+func universeIntact() string {
+	for name, b := range uniByName {
+		h, _, err := core.BlockHash(b.e.Block, b.e.SU.StateDiff, chain.Net, nil, core.TrieBackend)
+		if err != nil || !h.Equal(b.e.Block.Hash) || !b.e.SU.BlockHash.Equal(&h) {
+			return name
+		}
+	}
+	return ""
+}
+
 // block variants a source can serve for a given reference block
 const (
 	vTrue         = 0
@@ -685,6 +696,9 @@ func (w *world) apply(e evt) bool {
 		return false
 	}
 	w.stats["answers_"+e.kindLabel()]++
+	if e.O == 'r' && e.K == 'P' {
+		w.cause = "revert-check:old-branch-block"
+	}
 	if e.O == 'v' && e.K != 'E' {
 		w.cause = "reorg-check:" + map[byte]string{'T': "truthful-header", 'S': e.kindLabel()}[e.K]
 	}
